@@ -174,6 +174,8 @@ pub struct WritePlan {
     pub err_at_call: Option<(usize, ErrorKind)>,
     /// Transient `Interrupted` at these call indices.
     pub interrupted_at: Vec<usize>,
+    /// A real error at exactly this write call index; the sink works again afterwards.
+    pub err_once_at: Option<(usize, ErrorKind)>,
     /// Flush fails (persistent) from this flush call index on.
     pub flush_err_at: Option<(usize, ErrorKind)>,
 }
@@ -206,6 +208,12 @@ impl Write for FaultyWrite {
             if call >= c {
                 self.delivered_err = true;
                 return Err(io::Error::new(k, "injected sink error"));
+            }
+        }
+        if let Some((c, k)) = self.plan.err_once_at {
+            if call == c {
+                self.delivered_err = true;
+                return Err(io::Error::new(k, "injected one-time sink error"));
             }
         }
         if self.plan.interrupted_at.contains(&call) {
